@@ -193,6 +193,24 @@ def notify_follows(f, write_pos, cvfield, pred_fields, cls, require_all=True, la
     # reachable & not before
     if not any(f.reach_avoiding(write_pos, p, []) for p in npos):
         return False, "the notify is not reachable after the state change (notify-before-update)"
+    # nothing that can throw user exceptions runs between the state change and the notify (the CFG has no exception
+    # edges: a throwing callback would leave the function with the state changed and nobody woken)
+    from .common import is_user_call
+    protected = set()
+    for t in [s_ for s_ in f.stmts.values() if s_["k"] == "CXXTryStmt"]:
+        hs = [f.s(h) for h in t["handlers"]]
+        if any(h.get("all") for h in hs) and not any(d["k"] == "CXXThrowExpr" for h in hs for d in f.descendants(h)):
+            protected |= {d["id"] for d in f.descendants(f.s(t["try"]))}
+    for u in f.stmts.values():
+        if u["id"] in protected or u["k"] not in CALLS or not is_user_call(f, u):
+            continue
+        up = f.pos_of(u)
+        if up is None:
+            continue
+        if f.reach_avoiding(write_pos, tuple(up), []) and any(f.reach_avoiding(tuple(up), p, []) for p in npos) and \
+                not any(f.reach_avoiding(write_pos, p, [tuple(up)]) and not f.reach_avoiding(write_pos, tuple(up), [p]) for p in npos):
+            return False, "user code is called at %s between the state change and the notify: if it throws, the waiters are " \
+                          "never woken although the state they wait for has been reached" % f.loc(u)
     if not f.exits_avoiding(write_pos, npos):
         return True, ""
     # some path avoids the notify: accept only a bypass decided by the predicate fields alone
